@@ -166,7 +166,15 @@ theorem scope_defs (d : ADesign) (hw : WFParts d) (L D : Nat) (l : ALib) (hl : d
 theorem inst_resolves (d : ADesign) (hw : WFParts d) (L D : Nat) (l : ALib) (hl : d.libs[L]? = some l)
     (i : AInst) (h : i.okB d L D = true) : i.ResolvesIn (scopeAtA d L D l) := by
   simp only [AInst.okB, Bool.and_eq_true] at h
-  obtain ⟨⟨hb, hsp⟩, _⟩ := h
+  obtain ⟨⟨⟨hb, hsp⟩, _⟩, homit⟩ := h
+  have homit' : i.libOmit = true → i.li = (scopeAtA d L D l).libs.length := by
+    intro ho
+    have hL : L < d.libs.length := by
+      have := List.getElem?_eq_some_iff.mp hl
+      exact this.1
+    simp only [ho, Bool.not_true, Bool.false_or, beq_iff_eq] at homit
+    simp only [scopeAtA, cellScope, List.length_map, List.length_take]
+    omega
   cases hc : cellAt d i.li i.di with
   | none => rw [hc] at hsp; cases hsp
   | some lc =>
@@ -179,7 +187,7 @@ theorem inst_resolves (d : ADesign) (hw : WFParts d) (L D : Nat) (l : ALib) (hl 
       (spellsB_lower _ _ h1) (spellsB_lower _ _ h2)
     exact ⟨validIdentTok_of_check _ (spellsB_id _ _ h3), validIdentTok_of_check _ (spellsB_id _ _ h1),
       validIdentTok_of_check _ (spellsB_id _ _ h2), hres, hf,
-      ⟨tc.elab, tc.view, hget, viewIdentOf_ACell_data tc, (spellsB_lower _ _ h3).symm⟩⟩
+      ⟨tc.elab, tc.view, hget, viewIdentOf_ACell_data tc, (spellsB_lower _ _ h3).symm⟩, homit'⟩
 
 theorem APort_elab_width (p : APort) : p.elab.width = p.width := rfl
 
@@ -224,7 +232,7 @@ theorem pin_resolves (d : ADesign) (hw : WFParts d) (L D : Nat) (l : ALib) (hl :
           -- the instance's own reference is well formed: its target precedes this cell
           have hiok := hcp.insts i (List.mem_of_getElem? hi)
           simp only [AInst.okB, Bool.and_eq_true] at hiok
-          have hb := before_of_B _ _ _ _ hiok.1.1
+          have hb := before_of_B _ _ _ _ hiok.1.1.1
           obtain ⟨_, _, hget⟩ := scope_defs d hw L D l hl i.li i.di hb tl rc htl hrc rc.name.ident tl.name.ident rfl rfl
           -- the referenced cell is well formed itself
           have hrcp := cellParts d i.li i.di rc (lib_cell d i.li tl (hw.libs _ _ htl) i.di rc hrc)
@@ -253,7 +261,7 @@ theorem cell_okIn (d : ADesign) (hw : WFParts d) (L D : Nat) (l : ALib) (hl : d.
   · intro i hi p hp
     have := hcp.insts i hi
     simp only [AInst.okB, Bool.and_eq_true, List.all_eq_true] at this
-    exact this.2 p hp
+    exact this.1.2 p hp
   · intro i hi
     exact inst_resolves d hw L D l hl i (hcp.insts i hi)
   · intro n hn pin hp
